@@ -29,7 +29,7 @@ pub struct Worker {
 #[derive(Debug, Clone)]
 pub enum Reply {
     /// `class` is `ok`, `err:<class>` or `panic:<message>`; `canary` is `canary_ok|canary_skip|canary_drift:<names>`
-    Outcome { class: String, canary: String },
+    Outcome { class: String, canary: String, digest: String },
     Died { signal: Option<i32>, code: Option<i32> },
     Timeout,
     Protocol(String),
@@ -135,8 +135,8 @@ impl Worker {
         match self.rx.recv_timeout(watchdog) {
             Ok(Msg::Line(l)) => {
                 let f: Vec<&str> = l.split('\t').collect();
-                if f.len() == 3 && f[0] == "R" {
-                    Reply::Outcome { class: f[1].to_string(), canary: f[2].to_string() }
+                if f.len() == 4 && f[0] == "R" {
+                    Reply::Outcome { class: f[1].to_string(), canary: f[2].to_string(), digest: f[3].to_string() }
                 } else {
                     Reply::Protocol(format!("unexpected line from worker: {l:?}"))
                 }
